@@ -283,8 +283,9 @@ PROPS = {
         "rule": "K9: loader on generated file layouts (comments, blanks, CRLF, NBSP, '#' after blanks) vs the model; process runs of the "
                 "binary: model formats aeon/bnet/sbml x 4 print options x with/without context archive — archived sets, printed "
                 "trees, counts and listed states compared with the MODEL of the tool (requests cli / cliprint) and with the library "
-                "API in-process; 9 error scenarios (4 of them also against the model's message kind)",
-        "assumptions": ["a context archive was written for a graph with the number of spare variable sets the tool will build"],
+                "API in-process; 10 error scenarios (4 of them also against the model's message kind)",
+        "assumptions": ["the sets of a context archive that is USED were written for a graph with the number of spare variable sets the tool "
+                        "builds (an archive for another number is reported as a message since the repair D14 — exercised by K9)"],
     },
     "C19": {
         "module": "HctlProofs.Props.C19",
